@@ -25,3 +25,13 @@ Theorem C16_cheb_first_small_refuted :
   exists (size : nat -> Q), cheb_orig_from size (1 # 1000)%Q 10 2 = Some 3 /\ ~ Qlt (size 4) (1 # 1000)%Q.
 Proof. exact cheb_first_small_refuted. Qed.
 Print Assumptions C16_cheb_first_small_refuted.
+
+(* the remainder bound by which the exact Taylor oracle of the correspondence (and any reader of the stopping
+   rule) may truncate: for 0 <= x < K+2 every partial sum of sum_{k>K} x^k/k! is at most
+   x^(K+1)/(K+1)! * (K+2)/(K+2-x) *)
+From Coq Require Import Reals.
+From FQE Require Import TaylorTail.
+Theorem C16_taylor_tail_bound : forall (x : R) (K n : nat), (0 <= x < INR (S (S K)))%R ->
+  (tail_sum x (S K) n <= tterm x (S K) * (INR (S (S K)) / (INR (S (S K)) - x)))%R.
+Proof. exact taylor_tail_bound. Qed.
+Print Assumptions C16_taylor_tail_bound.
